@@ -38,7 +38,7 @@ ASSUMPTIONS = ["yield points are source lines of the recoco hand-off "
 REQUIRED = ["schedules", "distinct_interleavings", "preempting_schedules",
             "calllater_functions_checked", "wakes_checked", "sync_sections",
             "lock_programs", "lock_waits", "threaded_hub_runs",
-            "inline_hub_runs"]
+            "inline_hub_runs", "burst_handoffs"]
 TIMEOUT = {"quick": 1500, "thorough": 10800}
 
 
@@ -479,22 +479,102 @@ def plan (tier, seed):
     sp += [dict(mode="lock", ntasks=2, nlocks=1, shard=i, nshards=2) for i in range(2)]
     sp += [dict(mode="lock", ntasks=2, nlocks=2, shard=i, nshards=40) for i in range(2)]
     sp += [dict(mode="lock", ntasks=3, nlocks=1, shard=i, nshards=600) for i in range(2)]
+    sp += [dict(mode="mass", sizes=[1, 2, 1023, 1024, 1025, 2048, 3000])]
     return sp
   sp = []
   for i in range(len(SCENARIOS)):
     sp.append(dict(mode="dfs", scn=i, bound=1, limit=4000))
-    sp.append(dict(mode="dfs", scn=i, bound=2, limit=6000))
-  sp += [dict(mode="rand", scn=i % len(SCENARIOS), n=1500, policy="random", sub=i)
-         for i in range(20)]
-  sp += [dict(mode="rand", scn=i % len(SCENARIOS), n=1500, policy="pct", sub=i)
-         for i in range(20)]
+    sp.append(dict(mode="dfs", scn=i, bound=2, limit=15000))
+    sp.append(dict(mode="dfs", scn=i, bound=3, limit=15000))
+  sp += [dict(mode="rand", scn=i % len(SCENARIOS), n=4000, policy="random", sub=i)
+         for i in range(30)]
+  sp += [dict(mode="rand", scn=i % len(SCENARIOS), n=4000, policy="pct", sub=i)
+         for i in range(30)]
   sp += [dict(mode="lock", ntasks=2, nlocks=1, shard=0, nshards=1)]
   sp += [dict(mode="lock", ntasks=2, nlocks=2, shard=i, nshards=8) for i in range(8)]
   sp += [dict(mode="lock", ntasks=3, nlocks=1, shard=i, nshards=32) for i in range(16)]
+  sp += [dict(mode="mass", sizes=list(range(1000 + 8 * i, 1000 + 8 * i + 8)) +
+              [2040 + i, 4090 + i, 8190 + i, 3 + i]) for i in range(8)]
   return sp
 
 
+# --------------------------------------------------------------------------
+# (c) many hand-offs pending at once
+
+def do_mass (case, rep):
+  """
+  N functions are handed over before the scheduler gets to run (a burst from
+  foreign threads while it is busy).  All must run exactly once, in order;
+  and the wake-up pipe must never be read when it is empty - on the scheduler
+  thread that read would block every task for good.  (Hook: os.read as seen
+  by pox.lib.util is replaced by one that looks first.)
+  """
+  import os as _os
+  import select as _sel
+  import pox.lib.util as U
+  rc = rcmod()
+  N = case["n"]
+  def fire (key, what):
+    rep.violation("C07 burst: " + key, what, case)
+  blocked = []
+  class OsShim (object):
+    def __getattr__ (self, n): return getattr(_os, n)
+    def read (self, fd, n):
+      if not _sel.select([fd], [], [], 0)[0]:
+        blocked.append(fd)
+        raise BlockingIOError("read of an empty wake-up pipe")
+      return _os.read(fd, n)
+  saved = (U.os, rc.defaultScheduler)
+  U.os = OsShim(); rc.defaultScheduler = None
+  ran = []
+  try:
+    sched = rc.Scheduler(daemon=True, startInThread=False,
+                         threaded_selecthub=False)
+    hub = sched._selectHub
+    for i in range(N):
+      sched.callLater(lambda i=i: ran.append(i))
+    # a second, later burst (exercises "pong, then drain" twice)
+    guard = 0
+    extra_sent = False
+    while guard < 50 + 4 * N:
+      guard += 1
+      if not sched._ready:
+        fds = [hub._pinger] + [x for t in list(hub._tasks.values()) for x in (t[1] or [])]
+        try:
+          ready = _sel.select(fds, [], [], 0)[0]
+        except (OSError, ValueError):
+          ready = [1]
+        if not ready and hub._incoming.empty():
+          if extra_sent or not case.get("second"): break
+          extra_sent = True
+          for i in range(case["second"]):
+            sched.callLater(lambda i=i: ran.append(N + i))
+          continue
+        hub.idle()
+      sched.cycle()
+    rep.count("burst_handoffs", N + (case.get("second") or 0))
+    want = list(range(N + (case.get("second") if extra_sent else 0)))
+    if blocked:
+      fire("the wake-up pipe is read while empty (would block the scheduler "
+           "thread)", "%d pending hand-offs" % N)
+    elif ran != want:
+      fire("handed-over functions lost, repeated or reordered",
+           "%d submitted, %d ran; first %r" % (len(want), len(ran), ran[:5]))
+    sched._hasQuit = True
+  except Exception:
+    fire("exception", traceback.format_exc()[-600:])
+  finally:
+    U.os, rc.defaultScheduler = saved
+  rep.case(repr(("mass", N, case.get("second"))).encode(), nontrivial=N > 1)
+
+
 def run (spec, rep):
+  if spec["mode"] == "mass":
+    for n in spec["sizes"]:
+      for second in (0, 1, 1024):
+        do_mass(dict(kind="mass", n=n, second=second), rep)
+    rep.sample(dict(kind="mass", sizes=spec["sizes"]))
+    return
   if spec["mode"] == "dfs":
     explore_dfs(SCENARIOS[spec["scn"]], spec["bound"], spec["limit"], rep)
     rep.sample(dict(scenario=SCENARIOS[spec["scn"]], mode="dfs",
@@ -516,6 +596,8 @@ def run (spec, rep):
 
 
 def replay (witness, rep):
+  if witness.get("kind") == "mass":
+    do_mass(witness, rep); return
   if witness["kind"] == "lock":
     do_lock_case(witness, rep)
   else:
